@@ -436,17 +436,22 @@ def run(ctx):
 
     ctx.rule('ID-WIDTH', 'chunk.c: every snprintf that builds the four-byte chunk marker from a caller-supplied id (psf_save_write_chunk on the write side, psf_get_chunk_iterator / psf_find_read_chunk_str '
              'on the search side) uses a field width of at least 4 (`%-4s`, `%-4.4s`): ids of one to three characters are padded with spaces on both sides alike. A marker with NUL bytes makes the '
-             'WAV / AIFF / RF64 parsers stop before the data chunk (the file cannot be opened again), and a search must build the marker the writer built', floor=3)
+             'WAV / AIFF / RF64 parsers stop before the data chunk (the file cannot be opened again), and a search must build the marker the writer built', floor=2)
     import re as _re13
     n_iw = 0
-    for fn_ in ('psf_save_write_chunk', 'psf_get_chunk_iterator', 'psf_find_read_chunk_str'):
-        g = prog.fn(fn_, 'chunk.c')
+    # every function of chunk.c that prints a caller-supplied id into the string member of a marker union (wherever that code lives: a shared helper counts once),
+    # except the reader-side table filler psf_store_read_chunk_str, whose ids come from a file
+    for g in sorted([x for x in prog.lib_fns() if x.file.endswith('/chunk.c')], key=lambda x: x.line):
+        fn_ = g.name
+        if fn_ == 'psf_store_read_chunk_str':
+            continue
+        unions_ = {d['n'] for x in g.walk() if x['k'] == 'DeclStmt' for d in (x.get('decls') or []) if 'union' in (d.get('t') or '')}
         for c in g.calls('snprintf'):
-            if not g.s(g.unwrap(g.args(c)[0])).startswith('u.'):
+            if g.s(g.unwrap(g.args(c)[0])).split('.')[0] not in unions_:
                 continue
             fm = g.unwrap(g.args(c)[2]).get('s') or ''
             m_ = _re13.match(r'^%-?(\d+)(\.\d+)?s$', fm)
             n_iw += 1
             ok = bool(m_) and int(m_.group(1)) >= 4
             ctx.ob('ID-WIDTH', fn_, ok, g.loc(c), 'marker built with "%s"%s' % (fm, '' if ok else ': ids shorter than 4 characters leave NUL bytes in the marker'), None)
-    ctx.require(n_iw >= 3, 'only %d marker constructions found' % n_iw)
+    ctx.require(n_iw >= 2, 'only %d marker constructions found' % n_iw)
